@@ -38,6 +38,7 @@ func governanceAlphabet(w *world.World) []chainsim.Action {
 	// minersc update_settings
 	add("minersc", "update_settings", "valid1", "max_delegates", "150")
 	add("minersc", "update_settings", "valid2", "max_delegates", "100", "reward_rate", "0.5")
+	add("minersc", "update_settings", "valid3", "reward_rate", "0.7")
 	add("minersc", "update_settings", "bad2", "max_n", "abc", "min_n", "xyz")
 	add("minersc", "update_settings", "bad3", "max_n", "abc", "min_n", "xyz", "max_s", "q")
 	add("minersc", "update_settings", "valid+bad", "max_delegates", "120", "nosuchkey", "1")
@@ -49,6 +50,7 @@ func governanceAlphabet(w *world.World) []chainsim.Action {
 	add("minersc", "update_globals", "immutable+unknown", "server_chain.owner", "x", "nosuchsetting", "1")
 	// storagesc update_settings
 	add("storagesc", "update_settings", "valid1", "max_mint", "1500000.02")
+	add("storagesc", "update_settings", "valid3", "max_stake", "30000")
 	add("storagesc", "update_settings", "bad2", "max_mint", "abc", "time_unit", "xyz")
 	add("storagesc", "update_settings", "valid+bad", "max_mint", "1500000.03", "nosuchkey", "1")
 	acts = append(acts, call(w, "owner", "storagesc", "commit_settings_changes", nil, 0, 0, ""))
